@@ -63,7 +63,7 @@ def mutate(doc, path, op, param):
             new = (FX + "/server.crt") if keys[-1] == "key" else (FX + "/server.key")
         else:
             new = {"no_slash": "api", "wildcard": "/api/*rest", "bad_header": "a\nb", "unbindable": "203.0.113.1:%s" % str(old).rsplit(":", 1)[-1],
-                   "u64max": 18446744073709551615}[param]
+                   "u64max": 18446744073709551615, "zero": 0}[param]
         cur[keys[-1]] = new
         return d
     if op == "logscript":
